@@ -507,11 +507,16 @@ fn wait_race_scenario(flavor: Flavor, scen: u64, seed: u64) -> (Findings, Value)
 /// "any positive cleanup interval": besides milliseconds the grid has two sub-millisecond intervals
 pub const CLEANUP_1NS: u64 = u64::MAX;
 pub const CLEANUP_1US: u64 = u64::MAX - 1;
+/// ... and two huge ones
+pub const CLEANUP_MAX: u64 = u64::MAX - 2;
+pub const CLEANUP_U64_SECS: u64 = u64::MAX - 3;
 fn cleanup_of(v: u64) -> Option<Duration> {
     match v {
         0 => None,
         CLEANUP_1NS => Some(Duration::from_nanos(1)),
         CLEANUP_1US => Some(Duration::from_micros(1)),
+        CLEANUP_MAX => Some(Duration::MAX),
+        CLEANUP_U64_SECS => Some(Duration::from_secs(u64::MAX)),
         ms => Some(Duration::from_millis(ms)),
     }
 }
@@ -595,7 +600,7 @@ fn grid_scenario(flavor: Flavor, cfgv: (usize, i64, usize, usize, bool, bool, u6
                 f.add("C20", "op/unexpected-error", format!("clear() returned Err({e})"));
             }
         }
-        std::thread::sleep(Duration::from_millis(if cleanup_ms > 0 && (cleanup_ms <= 5 || cleanup_ms >= CLEANUP_1US) { 12 } else { 1 }));
+        std::thread::sleep(Duration::from_millis(if cleanup_ms > 0 && (cleanup_ms <= 5 || cleanup_ms == CLEANUP_1US || cleanup_ms == CLEANUP_1NS) { 12 } else { 1 }));
     }
     // the workers are alive, wait() returns Ok, a final insert is still processed
     phase("wait");
@@ -638,7 +643,7 @@ pub fn grid_values(thorough: bool) -> Vec<(usize, i64, usize, usize, bool, bool,
     let mcs = [0i64, 1, 2, 10, -1, -100, 1 << 62];
     let bss = [0usize, 1, 2, 8];
     let bis = [0usize, 1, 2, 64];
-    let cls = [1u64, 1000, 0, CLEANUP_1NS, CLEANUP_1US];
+    let cls = [1u64, 1000, 0, CLEANUP_1NS, CLEANUP_1US, CLEANUP_MAX, CLEANUP_U64_SECS];
     let mut v = Vec::new();
     if thorough {
         for &nc in &ncs {
